@@ -64,9 +64,10 @@ def main():
     shutil.copy(patch, os.path.join(out, "patch.diff"))
     for d in demos:
         shutil.copy(d, os.path.join(out, os.path.basename(d) + ".txt" if False else os.path.basename(d)))
-    mt = os.path.join(src, "seeded_meta.txt")
-    if os.path.exists(mt):
-        meta["author_notes"] = open(mt).read()
+    for nm in ("seeded_meta.txt", "seeded_notes.txt"):
+        mt = os.path.join(src, nm)
+        if os.path.exists(mt):
+            meta["author_notes"] = open(mt).read()
     meta["checks"] = {}
     if meta.get("valid_seed"):
         rc, o = run("git -C /repo status --porcelain")
